@@ -83,10 +83,27 @@ func (f *frame) call(t *ssa.Call) {
 			for _, mt := range targets {
 				after = x.havocTarget(after, mt)
 			}
+			// interface arguments that wrap a pointer (decode targets such as `&msg` passed as `any`): the pointee
+			// object is written by the callee
+			for _, a := range t.Call.Args {
+				if mi, ok := a.(*ssa.MakeInterface); ok {
+					if pt, ok := mi.X.Type().Underlying().(*types.Pointer); ok {
+						pv := f.val(mi.X)
+						if pv.Loc != nil {
+							fv := x.freshVal("hv_target", pv.Loc.T)
+							after = x.H.StoreLoc(after, pv.Loc, fv.T)
+						} else if len(pv.T) == 1 {
+							fv := x.freshVal("hv_target", pt.Elem())
+							after = x.H.StoreLoc(after, objectLoc(pv.T[0], pt.Elem()), fv.T)
+						}
+					}
+				}
+			}
 			nx := x.S.Declare("next", SInt)
 			x.S.Assert(IntLt(nx, IntConst(1<<39)))
 			x.S.Assert(IntLe(f.cur.heap.next, nx))
 			f.cur.heap = x.H.WithNext(after, nx)
+			f.reassumeTypeInvs(args)
 			f.setFreshResult(t)
 			return
 		}
@@ -186,24 +203,31 @@ func (f *frame) havocCall(t *ssa.Call, why string, args []Val, moduleFn bool) {
 		x.note("%s: all memory havoc'd at the call", why)
 		// declared data-structure invariants are taken to be preserved by every function: re-assume them for the
 		// pointer arguments and for the verified function's own pointer parameters in the new state
-		if len(x.W.Contracts.TypeInvs) > 0 {
-			reassume := func(v Val) {
-				if v.Typ == nil || len(v.T) == 0 {
-					return
-				}
-				for _, fact := range x.typeInvFacts(v.Typ, v.T, f.cur.heap) {
-					f.assume(fact)
-				}
-			}
-			for _, a := range args {
-				reassume(a)
-			}
-			for _, p := range x.topParams {
-				reassume(p)
-			}
-		}
+		f.reassumeTypeInvs(args)
 	}
 	f.setFreshResult(t)
+}
+
+// reassumeTypeInvs: declared data-structure invariants are taken to be preserved by every unspecified function.
+func (f *frame) reassumeTypeInvs(args []Val) {
+	x := f.x
+	if len(x.W.Contracts.TypeInvs) == 0 {
+		return
+	}
+	reassume := func(v Val) {
+		if v.Typ == nil || len(v.T) == 0 {
+			return
+		}
+		for _, fact := range x.typeInvFacts(v.Typ, v.T, f.cur.heap) {
+			f.assume(fact)
+		}
+	}
+	for _, a := range args {
+		reassume(a)
+	}
+	for _, p := range x.topParams {
+		reassume(p)
+	}
 }
 
 func (f *frame) setFreshResult(t *ssa.Call) Val {
@@ -418,9 +442,12 @@ func (ctx *EvalCtx) evalLoc(e ast.Expr) (*Loc, error) {
 
 func (f *frame) callByContract(t *ssa.Call, callee *ssa.Function, fc *FuncContract, args []Val) {
 	x := f.x
+	// pointers into the middle of an object keep their static location (the contract dereferences through it)
+	x.opaqueInterior = true
 	for i := range args {
 		args[i] = f.materialize(args[i], callee.Params[i].Type())
 	}
+	x.opaqueInterior = false
 	before := f.cur.heap
 	pre := x.calleeCtx(callee, fc, args, before, before)
 	cname := callee.Name()
